@@ -25,7 +25,7 @@ class FakeRunning(object):
     self.triggers.append(a)
 
   def callInThread(self, f, *a, **k):
-    raise NotImplementedError
+    self.in_thread = getattr(self, 'in_thread', []) + [f]
 
 
 class World(object):
@@ -50,6 +50,16 @@ class World(object):
     memdb.TICK[0] = self.tick
     self.reactor = FakeRunning()
     writer.reactor = self.reactor
+    # the daemon's own wiring of the writer: WriterService.startService() says which functions run in threads and what
+    # happens 'before shutdown'; the harness runs exactly those (by name, so that a reloaded module is picked up)
+    from twisted.internet.task import Clock as _Clock
+    svc = writer.WriterService()
+    svc.storage_reload_task.clock = _Clock()
+    svc.aggregation_reload_task.clock = _Clock()
+    svc.startService()
+    self.writer_service = svc
+    self.thread_mains = [f.__name__ for f in getattr(self.reactor, 'in_thread', [])]
+    self.shutdown_triggers = [t[2].__name__ for t in self.reactor.triggers if t[0] == 'before' and t[1] == 'shutdown']
     self.orig_lag = self.settings.MIN_TIMESTAMP_LAG
     self.signals = []       # (logical clock, name)
     self.clock = [0]
@@ -408,7 +418,8 @@ class World(object):
         elif k == 'stop':
           h.stop_clock = tick()
           h.stop_vt = self.vt.time()
-          writer.shutdownModifyUpdateSpeed()     # 'before shutdown' trigger, on the reactor thread
+          for name in self.shutdown_triggers:     # the 'before shutdown' triggers the daemon registered, on the reactor thread
+            getattr(writer, name)()
           self.reactor.running = False            # reactor leaves its loop; the thread pool is then joined
         elif k == 'tick':
           # the InstrumentationService's LoopingCall on the reactor thread: reads the cache's size and stores the
@@ -437,7 +448,10 @@ class World(object):
           except BaseException:
             pass
       elif writer_plan[0] == 'loop':
-        writer.writeForever()
+        if 'writeForever' in self.thread_mains:   # started by WriterService.startService() through reactor.callInThread
+          writer.writeForever()
+        else:
+          h.wiring = 'WriterService.startService() did not start writeForever in a thread (started: %r)' % (self.thread_mains,)
       elif writer_plan[0] == 'passes':
         for _ in range(writer_plan[1]):
           try:
@@ -475,7 +489,8 @@ class World(object):
     if drain_rest and err is None:
       if self.orig_lag and rest_via_hook:
         # what the daemon does at shutdown instead of waiting: the 'before shutdown' hook sets the lag to zero
-        writer.shutdownModifyUpdateSpeed()
+        for name in self.shutdown_triggers:
+          getattr(writer, name)()
         h.rest_via_hook = True
       elif self.orig_lag:
         self.vt.offset += self.orig_lag + 1000     # only a configured lag may make datapoints wait for the clock
